@@ -128,7 +128,8 @@ class C25(Prop):
             "expected grid lines of: uniform Cartesian grids (cell_size / cell_size_x,y), Cartesian "
             "grids whose cell size does NOT divide the extent (documented: round(L/cs) cells filling "
             "the domain), TENSOR grids with non-uniform lines and domains not at the origin, and "
-            "Cartesian grids on domains not at the origin (open finding) [quick]; plus simplex grids "
+            "Cartesian grids on domains not at the origin (repaired in /repo d7e47e835; the old "
+            "witness is replayed from the corpus first) [quick]; plus simplex grids "
             "via gmsh (also translated domains) and 1-2 rectangle fractures in 3-D (Cartesian, "
             "non-dividing, tensor, simplex) [thorough]; every grid is checked against the REQUESTED "
             "fractures and domain; non-trivial = at least one interface with two sides")
@@ -311,9 +312,7 @@ class C25(Prop):
                     yield self._gen_split(rng)
                 else:
                     yield self._gen_struct2d(rng, rng.choice(
-                        ["cartesian", "cartesian", "tensor", "tensor", "cart_nondiv", "cart_nondiv",
-                         "cart_shift"] if it % 8 == 7 else
-                        ["cartesian", "tensor", "tensor", "cart_nondiv"]))
+                        ["cartesian", "tensor", "tensor", "cart_nondiv", "cart_shift"]))
             else:
                 if r < 0.2:
                     yield self._gen_split(rng)
@@ -323,7 +322,8 @@ class C25(Prop):
                 elif r < 0.75:
                     yield self._gen_simplex2d(rng)
                 elif r < 0.92:
-                    yield self._gen_3d(rng, rng.choice(["cartesian", "tensor", "tensor", "cart_nondiv"]))
+                    yield self._gen_3d(rng, rng.choice(["cartesian", "tensor", "tensor", "cart_nondiv",
+                                                        "cart_shift"]))
                 else:
                     yield self._gen_3d(rng, "simplex")
 
@@ -387,15 +387,14 @@ class C25(Prop):
         net, meas = self._network(case)
         args = {k: (np.array(v, dtype=float) if isinstance(v, list) else v)
                 for k, v in case["args"].items()}
-        shifted = case["grid"] == "cartesian" and any(b[0] != 0 for b in case["box"])
         with warnings.catch_warnings():
             warnings.simplefilter("ignore")
             try:
                 mdg = pp.create_mdg(case["grid"], args, net)
-            except Exception as e:
-                if shifted:     # open finding: part of the recorded behaviour of this input class
-                    return {"raised": type(e).__name__}
-                raise
+            except (AssertionError, ValueError, IndexError) as e:
+                # meshing must not fail on these inputs; recorded so that the oracle reports it
+                # with the input (a regression of the repaired lower-corner handling did this)
+                return {"raised": type(e).__name__}
         top = mdg.dim_max()
         ifaces = []
         coupled = {}
@@ -472,7 +471,7 @@ class C25(Prop):
         if case["kind"] == "split":
             return self._oracle_split(case, res)
         if "raised" in res:
-            return f"create_mdg raised {res['raised']} for a Cartesian grid on a domain not at the origin"
+            return f"create_mdg raised {res['raised']} on a valid network (grid {case['grid']}, domain {case['box']})"
         near = lambda x, y: abs(x - y) <= TOL * (1 + abs(y))
         vnear = lambda a, b: len(a) == len(b) and all(near(x, y) for x, y in zip(a, b))
         for k, it in enumerate(res["ifaces"]):
@@ -588,11 +587,7 @@ class C25(Prop):
                f"{clist(res['bbox'], lambda b: f'({cq(b[0])}, {cq(b[1])})')} "
                f"{clist(case['box'], lambda b: f'({cq(b[0])}, {cq(b[1])})')} "
                f"{_nat(res['nfrac'])} {_nat(len(case['fracs']))})")
-        term = f"conform_req {mdgd} {req}"
-        why = self.oracle(case, res)
-        if why and self.finding_key(case, res, why) == KEY_SHIFT:
-            return f"negb ({term})"     # open finding: Coq confirms the certificate rejects
-        return term
+        return f"conform_req {mdgd} {req}"
 
     def nontrivial(self, case, res):
         if case["kind"] == "split":
@@ -600,8 +595,6 @@ class C25(Prop):
         return "ifaces" in res and any(it["sides"] == 2 for it in res["ifaces"])
 
     def finding_key(self, case, res, why):
-        if case.get("grid") == "cartesian" and any(b[0] != 0 for b in case.get("box", [])):
-            return KEY_SHIFT
         return "conformity-" + why.split(":")[0].split(" ")[0]
 
     def describe(self, case):
